@@ -278,9 +278,12 @@ func boundaryDirectories() []*directory {
 		mkHead("DC=emea,DC=corp,DC=example", 5, []uint32{21, 1004336348, 1177238915, 682003330}, true),
 		partition("DC=DomainDnsZones,DC=corp,DC=example"),
 		partition("DC=ForestDnsZones,DC=corp,DC=example"),
+		// an entry whose DN has other RDNs between its DC components (C16 quantifies over DNs built
+		// from arbitrary RDN sequences): its DNS name is still the dot-join of the DC components
+		mkHead("DC=lab,OU=Hosting,DC=corp,DC=example", 5, []uint32{21, 7, 8, 9}, false),
 	}}
 	d0.fill(nil, func(int) []uint32 {
-		return []uint32{500, 501, 502, 512, 513, 1104, 1105, 544, 560, 572, 65535, 65536, 66080, 131617, 65536 + 583, 1<<31 + 544, 0xFFFF0220, 563, 564, 565, 566, 567, 570}
+		return []uint32{500, 501, 502, 512, 513, 1104, 1105, 544, 560, 572, 65535, 65536, 66080, 131617, 65536 + 583, 1<<31 + 544, 0xFFFF0220, 563, 564, 565, 566, 567, 570, 498, 499, 1, 0, 256, 300}
 	}, func(int) []uint32 { return builtinRange() }, []uint32{4242, 7})
 	out = append(out, d0)
 	// sub-authority counts 0, 1, 14, 15; authorities 0, 2^32, 2^48-1; powers of ten
@@ -604,7 +607,21 @@ func (sr *sessionRun) findByRID(name string, rid int) {
 	}
 	q := findSearch(log, "(objectSid=")
 	if q == nil {
+		// no object was asked for. If the directory holds exactly one object with that RID under the
+		// (unambiguously named) domain and the RID is outside the alias range, its SID is the answer
 		r.Count("session_rid_lookup_without_objectsid_search", 1)
+		var match []dirHead
+		for _, h := range sr.d.heads {
+			if strings.EqualFold(name, refDomainOfDN(h.dn)) || strings.EqualFold(name, h.dc) {
+				match = append(match, h)
+			}
+		}
+		if err == nil && len(match) == 1 && match[0].principals && match[0].sid != nil && rid >= 0 && (rid < 544 || rid > 583) {
+			text := fmt.Sprintf("%s-%d", refSIDString(match[0].domainAuth, match[0].domainSubs), rid)
+			if objs := sr.d.objects[match[0].dn+"\x00"+text]; len(objs) == 1 && got != text {
+				r.Violation("ldap.Session.FindObjectSIDByRID:value:never-asked", fmt.Sprintf("FindObjectSIDByRID(%q, %d) returned %q without searching; the directory holds %s with objectSid %s", name, rid, got, objs[0].dn, text), cs)
+			}
+		}
 		return
 	}
 	cs["filter_received"], cs["base_received"], cs["sent_in_this_search"], cs["got"] = q.filter, q.base, sentView(q.sent), got
